@@ -175,6 +175,9 @@ PROPS = {
         flow=["checks.flow_exc:run"],
         harness=True,
         harness_timeout={"quick": 1800, "thorough": 5400},
+        # (the contracts are monitored under the repository's suite in the thorough tier, but not while THIS stand-in runs: with every
+        #  tokenizer function wrapped its 20 000 documents took over half an hour and 25 GB - measured, not understood)
+        monitor_harness=False,
         explanation=(
             "Totality of the whole pipeline is NOT decidable by contracts on MyST alone (markdown-it, docutils transforms, "
             "Sphinx, Jinja and pygments are external).  What is decided: (1) PROVED (pyvc, all strings): the directive-option "
